@@ -273,25 +273,66 @@ Section Rewrites.
   Variable cap : Z.
   Variable persist : bool.
 
-  Record xstate := { base : gstate; hdrs : Z -> Z; xbest : Z; stale : bool }.
+  (* envbad: second ghost flag, about the ENVIRONMENT of the code under test
+     (never read by the behaviour): set when a writer that commits inside a
+     read window (XCallW) stores an entry that does not satisfy the relation
+     for the committed headers.  The real writers (the batch writer persisting
+     verified filters) never do; the harness never does. *)
+  Record xstate := { base : gstate; hdrs : Z -> Z; xbest : Z; stale : bool; envbad : bool }.
 
   Inductive xop :=
   | XBase (o : op)
-  | XRewrite (nb : Z) (nf : Z -> Z).    (* new best height, new committed headers *)
+  | XRewrite (nb : Z) (nf : Z -> Z)     (* new best height, new committed headers *)
+  | XGetBlock (b : Z)                   (* ChainService.GetBlock(b) answered from the network *)
+  | XCallW (c : call) (w : list (Z * Z)).
+    (* GetCFilter whose database lookup is overlapped by other writers: after
+       the read transaction of FilterDB.FetchFilter has ended, and before the
+       call goes on, the puts w (other keys' filters; oldest first, any number
+       of commits) are committed to the filter database *)
 
   Definition entries (g : gstate) : list (Z * Z) := cache_view (cache g) ++ db g ++ dbq g.
   Definition entry_ok (fh : Z -> Z) (p : Z * Z) : bool := Hf (snd p) (fh (fst p - 1)) =? fh (fst p).
   Definition entries_ok (fh : Z -> Z) (g : gstate) : bool := forallb (entry_ok fh) (entries g).
 
+  (* GetCFilter opens a database read transaction iff the filter type is
+     accepted and the first cache lookup misses *)
+  Definition read_window (g : gstate) (c : call) : bool :=
+    c_ftype_ok c && match lru_find (cache g) (c_blk c) with Some _ => false | None => true end.
+
+  (* FilterDB.FetchFilter overlapped by writers, in two phases: the read
+     transaction looks the key up in the database as it is THEN (snapshot);
+     what is decoded and returned afterwards is that value, whatever the
+     writers w commit in between *)
+  Definition db_fetch (d : list (Z * Z)) (k : Z) (w : list (Z * Z)) : option Z * list (Z * Z) :=
+    (db_get d k, db_put_all d w).
+
   Definition xstep (st : xstate) (o : xop) : xstate * obs :=
     match o with
     | XBase o' =>
       let '(g, ob) := step Hf (hdrs st) fsize (xbest st) cap persist (base st) o' in
-      ({| base := g; hdrs := hdrs st; xbest := xbest st; stale := stale st |}, ob)
+      ({| base := g; hdrs := hdrs st; xbest := xbest st; stale := stale st; envbad := envbad st |}, ob)
     | XRewrite nb nf =>
       ({| base := base st; hdrs := nf; xbest := nb;
-          stale := stale st || negb (entries_ok nf (base st)) |},
+          stale := stale st || negb (entries_ok nf (base st)); envbad := envbad st |},
        mk_obs (base st) RNone false (0, 0) [])
+    | XGetBlock _ =>
+      (* GetBlock touches the block cache only: filter cache, filter database
+         and writer queue are what they were *)
+      (st, mk_obs (base st) RNone false (0, 0) [])
+    | XCallW c w =>
+      (* the lookup (and everything after it) sees the database of the state
+         the call started in: get_cfilter never writes the database itself, so
+         committing w after the call is the same as committing it right after
+         the read transaction (Proofs.callw_two_phase) *)
+      let '(g, ob) := step Hf (hdrs st) fsize (xbest st) cap persist (base st) (Call c) in
+      if read_window (base st) c then
+        let g' := {| cache := cache g; db := db_put_all (db g) w; dbq := dbq g |} in
+        ({| base := g'; hdrs := hdrs st; xbest := xbest st; stale := stale st;
+            envbad := envbad st || negb (forallb (entry_ok (hdrs st)) w) |},
+         {| o_res := o_res ob; o_queried := o_queried ob; o_range := o_range ob; o_prog := o_prog ob;
+            o_cache := o_cache ob; o_db := db g' |})
+      else
+        ({| base := g; hdrs := hdrs st; xbest := xbest st; stale := stale st; envbad := envbad st |}, ob)
     end.
 
   Fixpoint xrun (st : xstate) (ops : list xop) : list obs :=
